@@ -157,7 +157,9 @@ type GenOptions struct {
 	QuiesceEvery int
 	NoTLS        bool
 	NoOps        bool
-	OnlyNS       string
+	// OwnHostAlways (sparse worlds): every rule and tls entry of an ingress uses the ingress' own host
+	OwnHostAlways bool
+	OnlyNS        string
 	// Sparse: larger name pools and one host per ingress, so that the tracker's dirty
 	// closures stay small (a missing tracking link shows only when no other path exists)
 	Sparse bool
@@ -190,8 +192,8 @@ type gen struct {
 	tcpShared    bool
 	curPrefSvc   string
 	defBackendOK map[string]bool
-	rng *rand.Rand
-	opt GenOptions
+	rng          *rand.Rand
+	opt          GenOptions
 	// current model of the cluster as the generator sees it
 	objs map[string]map[string]client.Object
 	// enabled keys for this run
@@ -385,6 +387,68 @@ func (g *gen) sanitize(o client.Object) {
 					}
 				}
 			}
+		}
+	}
+	if g.opt.Avoid["frontend_auth_exact_paths"] && ing.Annotations[annPrefix+"auth-external-placement"] == "frontend" {
+		// frontend-placed authentication rules only match the declared path itself
+		// (KF-frontend-auth-subpaths): such ingresses declare exact paths only
+		for i := range ing.Spec.Rules {
+			if ing.Spec.Rules[i].HTTP == nil {
+				continue
+			}
+			for j := range ing.Spec.Rules[i].HTTP.Paths {
+				pt := networking.PathTypeExact
+				ing.Spec.Rules[i].HTTP.Paths[j].PathType = &pt
+			}
+		}
+	}
+	if g.opt.Avoid["frontend_auth_host_exclusive"] {
+		// frontend placement is applied per host from the merged annotations of every ingress
+		// that names the host (KF-frontend-auth-host-scoped): a frontend-placed ingress shares
+		// its hosts with nobody
+		frontend := func(i *networking.Ingress) bool {
+			return i.Annotations[annPrefix+"auth-external-placement"] == "frontend"
+		}
+		claimedAny, claimedFront := map[string]bool{}, map[string]bool{}
+		for k, o := range g.objs[KIngress] {
+			if k == key {
+				continue
+			}
+			oi := o.(*networking.Ingress)
+			mark := func(h string) {
+				claimedAny[h] = true
+				if frontend(oi) {
+					claimedFront[h] = true
+				}
+			}
+			for _, r := range oi.Spec.Rules {
+				mark(r.Host)
+			}
+			for _, t := range oi.Spec.TLS {
+				for _, h := range t.Hosts {
+					mark(h)
+				}
+			}
+		}
+		taken := claimedFront
+		if frontend(ing) {
+			taken = claimedAny
+		}
+		var rules []networking.IngressRule
+		for _, r := range ing.Spec.Rules {
+			if !taken[r.Host] {
+				rules = append(rules, r)
+			}
+		}
+		ing.Spec.Rules = rules
+		for i := range ing.Spec.TLS {
+			var hs []string
+			for _, h := range ing.Spec.TLS[i].Hosts {
+				if !taken[h] {
+					hs = append(hs, h)
+				}
+			}
+			ing.Spec.TLS[i].Hosts = hs
 		}
 	}
 	if g.opt.Avoid["no_new_default_backend"] {
@@ -626,7 +690,7 @@ func (g *gen) genIngress(ns, name string, created int, cur *networking.Ingress) 
 	}
 	for i := 0; i < nrules; i++ {
 		r := ruleSpec{Host: pickStr(g, g.opt.Hosts)}
-		if ownHost != "" && !g.chance(1, 8) {
+		if ownHost != "" && (g.opt.OwnHostAlways || !g.chance(1, 8)) {
 			r.Host = ownHost
 		}
 		np := 1 + g.pick(3)
@@ -643,7 +707,7 @@ func (g *gen) genIngress(ns, name string, created int, cur *networking.Ingress) 
 			nh := 1 + g.pick(2)
 			for j := 0; j < nh; j++ {
 				h := pickStr(g, g.opt.Hosts)
-				if ownHost != "" && !g.chance(1, 8) {
+				if ownHost != "" && (g.opt.OwnHostAlways || !g.chance(1, 8)) {
 					h = ownHost
 				}
 				if h != "" {
